@@ -132,6 +132,11 @@ func (cfg *Config) paramExp(pe *syntax.ParamExp) (string, error) {
 			callVarInd = false
 			elems = cfg.sliceElems(pe, vr.List, vr.Indexes, name == "@" || name == "*")
 			str = join(elems)
+		case Associative:
+			indexAllElements = true
+			callVarInd = false
+			elems = slices.Sorted(maps.Values(vr.Map))
+			str = join(elems)
 			set = len(elems) > 0 // like Bash, a list without elements counts as unset
 		}
 	}
